@@ -1060,6 +1060,10 @@ class SyncInterpreter(BaseInterpreter[TContext, TEvent]):
             actor.send(target_event)
             return
 
+        # 🛑 A delayed send scheduled after `stop()` would outlive it.
+        if self.status == "stopped":
+            return
+
         cancel_flag = threading.Event()
 
         def _fire() -> None:
